@@ -152,6 +152,12 @@ class ZemaxFileReader:
         if not success:
             raise ValueError('Failed to read Zemax file.')
 
+        # store the last surface block (blocks are otherwise stored when the
+        # next SURF line arrives)
+        if self._current_surf >= 0:
+            self.data['surfaces'][self._current_surf] = \
+                self._current_surf_data
+
         # sort and filter fields
         unique_fields = set()
         for i in range(min(len(self.data['fields']['x']),
